@@ -213,13 +213,19 @@ static bool handle_token(unsigned char uch, long file_pos,
   return true;
 }
 
+/* Count the occurrences of the token |needle| in a line.  Bytes inside
+   a string literal are not tokens, so they are not counted. */
 static int count(unsigned char needle, const char* haystack, size_t len)
 {
   int n = 0;
+  bool in_string = false;
   const unsigned char *p = (const unsigned char*)haystack;
   while (len--)
     {
-      if (*p++ == needle)
+      const unsigned char ch = *p++;
+      if (ch == '"')
+	in_string = !in_string;
+      else if (!in_string && ch == needle)
 	++n;
     }
   return n;
